@@ -123,6 +123,32 @@ def events_for(rng, thorough):
                 yield "dqsub", {"a": a, "b": c}, s, (lambda a=a, c=c, s=s: dvec(D(a, s) - D(c, s))), "DualQuaternion.-"
                 yield "dqmatvec", {"a": a, "b": c}, s * s, (lambda a=a, c=c, s=s: D(a, s).matrix() @ dvec(D(c, s))), "DualQuaternion.matrix@"
         yield "dqconj", {"a": a}, 1.0, (lambda a=a: dvec(D(a).conj())), "DualQuaternion.conj"
+    # products of UNIT dual quaternions built from rigid motions (integer quaternion, integer translation): composed
+    # rotations beyond a half turn (negative real scalar part) included
+    from spatialmath import SE3
+    from spatialmath.DualQuaternion import UnitDualQuaternion
+    mots = [((1, 1, 0, 0), (1, 0, 0)), ((1, 0, 0, 1), (0, 2, -1)), ((0, 0, 0, 1), (1, 2, 0)), ((1, 1, 1, 1), (1, -1, 0)),
+            ((0, 1, 1, 0), (2, 0, 1)), ((1, 0, 0, 3), (0, 0, 0)), ((1, 0, -2, 0), (3, -2, 1)), ((2, 1, 0, 0), (0, 0, 0)),
+            ((1, 0, 0, -1), (1, 1, 1)), ((1, 2, 2, 0), (0, 1, 0))]
+
+    def T_of(q, t):
+        qq = Q(q) / math.sqrt(sum(c * c for c in q))
+        s_, x, y, z = qq
+        R = np.array([[1 - 2 * (y * y + z * z), 2 * (x * y - s_ * z), 2 * (x * z + s_ * y)],
+                      [2 * (x * y + s_ * z), 1 - 2 * (x * x + z * z), 2 * (y * z - s_ * x)],
+                      [2 * (x * z - s_ * y), 2 * (y * z + s_ * x), 1 - 2 * (x * x + y * y)]])
+        T = np.eye(4)
+        T[:3, :3] = R
+        T[:3, 3] = t
+        return T
+    for (q1, t1) in mots:
+        for (q2, t2) in mots:
+            K = math.sqrt(sum(c * c for c in q1) * sum(c * c for c in q2))
+
+            def th(q1=q1, t1=t1, q2=q2, t2=t2, K=K):
+                v = dvec(UnitDualQuaternion(SE3(T_of(q1, t1))) * UnitDualQuaternion(SE3(T_of(q2, t2))))
+                return np.r_[K * v[:4], 2 * K * v[4:]]
+            yield "udqmul", {"q1": q1, "t1": t1, "d1": 1, "q2": q2, "t2": t2, "d2": 1}, 1.0, th, "UnitDualQuaternion.*"
 
 
 def record_events(j, rng, thorough):
